@@ -1,0 +1,18 @@
+//go:build verif
+
+package bloomfilter
+
+// Contracts for /verif (gvc). Comment-only file; see /verif/DESIGN.md §5 C20.
+
+//@ prop C20
+
+// A block may be pruned by the bloom-filter skip index only on evidence about the column the atom is on: a MATCHPHRASE
+// atom consults the block's filter only when its column is one this reader indexes (it has a split table), and the
+// phrase is tokenized with THAT column's split table; an atom on any other column is "possibly true".
+//@ func (*LineFilterReader).hitExpr
+//@   ghost tok bool = false
+//@   call NewSimpleGramTokenizer
+//@     requires [split_table_of_the_atoms_column] (leftV in s.splitMap) && arg0 == s.splitMap[leftV]
+//@     set tok = true
+//@   call .Hit
+//@     requires [filter_consulted_only_for_a_column_it_indexes] tok
